@@ -3,12 +3,17 @@
 1. TLC explores AdbApi (all life-cycle letters from both states) and checks GuardFirst / EmptyPath /
    AvailableExactly on the specification.
 2. spec->code: the labelled graph is walked on fresh AdbDevice and AdbDeviceAsync objects: every sequence over
-   the full alphabet {connect-ok, connect-fail x 5 kinds, close, 13 operations x path empty/non-empty} up to
-   length 3, and up to length 5 over operation classes; after every step the outcome class, the number of
-   bytes written to the transport, .available and the scratch directory are compared with the model edge.
+   the full alphabet {connect-ok, connect-fail x 7 kinds (incl. a cancelled / BaseException connect), close,
+   close whose transport close raises, 13 operations x path empty/non-empty, streaming generator handed out /
+   item requested} up to length 3, and up to length 5 over operation classes; after every step the outcome
+   class, whether the transport was asked to write, .available and the scratch directory are compared with the
+   model edges (the model is nondeterministic in the generator's length: the set of possible model states is
+   carried along).
 """
+import asyncio
 import io
 import itertools
+import json
 import os
 import shutil
 import tempfile
@@ -16,13 +21,17 @@ import tempfile
 from .. import env, simdev, tlc, transports, wire
 from ..framework import main
 
-FAILS = ['transport', 'silent', 'nokeys', 'badauth', 'checksum']
+FAILS = ['transport', 'silent', 'nokeys', 'badauth', 'checksum', 'cancel', 'cancel_read']
+
+
+class Interrupt(BaseException):
+    """What a sync caller can be hit by inside connect(): not an Exception."""
 PATH_APIS = ['list', 'stat', 'pull', 'push']
 OTHER_APIS = ['shell', 'exec_out', 'streaming_shell', 'root', 'reboot']
 
 
 def graph(ctx):
-    cfg = tlc.cfg_text(constants={'FailKinds': '{' + ','.join('"%s"' % k for k in FAILS) + '}'}, properties=['GuardFirst', 'EmptyPath', 'AvailableExactly'],
+    cfg = tlc.cfg_text(constants={'FailKinds': '{' + ','.join('"%s"' % k for k in FAILS) + '}'}, properties=['GuardFirst', 'EmptyPath', 'AvailableExactly', 'NothingSentUnlessConnected', 'FreshGenIsAnOperation'],
                        view='View', action_constraints=['EmitEdge'])
     r = tlc.cached_run('AdbApi', cfg, depends=('AdbApi',))
     if r.violations:
@@ -30,8 +39,12 @@ def graph(ctx):
     ctx.add_tlc(r, 'AdbApi')
     g = {}
     for e in tlc.printed(r, 'EDGE'):
-        g.setdefault(e['from'], []).append((e['op'], e['to']))
+        g.setdefault(skey(e['from']), []).append((e['op'], skey(e['to'])))
     return g
+
+
+def skey(st):
+    return (bool(st['a']), st['g'])
 
 
 class Obj(object):
@@ -61,6 +74,7 @@ class Obj(object):
                     return [wire.frame('AUTH', 9, 0, b'\x02' * 20)]
                 return simdev.AuthPolicy.on_auth(self, dev, h)
         self.dev = simdev.SimDevice(auth=Auth())
+        self.dev.default_script = [b'one', b'two']
         self.dev.fs.add('/f', b'data')
         self.dev.fs.dirs['/d'] = [(b'x', 1, 2, 3)]
         self.sess = env.Session(mode, self.dev)
@@ -71,8 +85,30 @@ class Obj(object):
             if outer.plan == 'transport':
                 core._call('connect', timeout)
                 raise transports.SimTimeout('connect failed')
+            if outer.plan == 'cancel':
+                core._call('connect', timeout)
+                raise (asyncio.CancelledError() if mode == 'async' else Interrupt())
             return orig(timeout)
         core.connect = connect
+        orig_read = core.read
+
+        def read(n, timeout):
+            if outer.plan == 'cancel_read':
+                outer.plan = 'ok'
+                core._call('bulk_read', (n, timeout))
+                raise (asyncio.CancelledError() if mode == 'async' else Interrupt())
+            return orig_read(n, timeout)
+        core.read = read
+        orig_close = core.close
+
+        def close():
+            orig_close()
+            if outer.close_fails:
+                outer.close_fails = False
+                raise OSError('the transport could not be closed cleanly (device unplugged)')
+        core.close = close
+        self.close_fails = False
+        self.gen = None
         self.nfile = 0
 
     def signer(self):
@@ -86,7 +122,7 @@ class Obj(object):
 
     def step(self, letter):
         s = self.sess
-        w0 = s.core.written
+        w0 = self.nwrites()
         files0 = sorted(os.listdir(self.tmp))
         if letter[0] == 'connect':
             self.plan = letter[1]
@@ -95,7 +131,19 @@ class Obj(object):
                 kw['rsa_keys'] = [self.signer(), self.signer()]
             o = s.call('connect', **kw)
         elif letter[0] == 'close':
+            self.close_fails = len(letter) > 1
             o = s.call('close')
+            self.close_fails = False
+        elif letter[0] == 'gen_create':
+            o = self.guarded('streaming_shell()', lambda: s.device.streaming_shell('cmd'))
+            if o.kind == 'ret':
+                self.gen, o.value = o.value, None
+        elif letter[0] == 'gen_next':
+            g = self.gen
+            if s.mode == 'sync':
+                o = self.guarded('next(gen)', lambda: next(g))
+            else:
+                o = self.guarded('anext(gen)', lambda: s.loop.run_until_complete(g.__anext__()))
         else:
             api, empty = letter[1], letter[2]
             path = '' if empty else {'list': '/d', 'stat': '/f', 'pull': '/f', 'push': '/new'}.get(api, '')
@@ -110,8 +158,29 @@ class Obj(object):
                 o = s.call('pull', path, os.path.join(self.tmp, 'pulled%d' % self.nfile))
             else:
                 o = s.call('push', io.BytesIO(b'abc'), path)
-        return dict(out=('ok' if o.kind == 'ret' else o.exc_name), wrote=s.core.written > w0, avail=bool(s.device.available),
+        out = 'ok' if o.kind == 'ret' else ('stop' if o.exc_name in ('StopIteration', 'StopAsyncIteration') else o.exc_name)
+        return dict(out=out, wrote=self.nwrites() > w0, avail=bool(s.device.available),
                     files_created=sorted(set(os.listdir(self.tmp)) - set(files0)), ret=(o.value if o.kind == 'ret' else None))
+
+
+def _obj_methods():
+    def nwrites(self):
+        return sum(1 for c in self.sess.core.calls if c[0] == 'bulk_write')
+
+    def guarded(self, what, f):
+        s = self.sess
+        s.rebind_clock()
+        s.rec.ev('call', api=what, info={}, clk=int(s.clock.time()))
+        try:
+            return env.Outcome('ret', value=f())
+        except BaseException as e:  # noqa
+            if isinstance(e, (KeyboardInterrupt, SystemExit)):
+                raise
+            return env.Outcome('exc', exc=e)
+    Obj.nwrites, Obj.guarded = nwrites, guarded
+
+
+_obj_methods()
 
 
 def letter_of(op):
@@ -121,37 +190,66 @@ def letter_of(op):
         return ('connect', op['kind'])
     if op['op'] == 'close':
         return ('close',)
+    if op['op'] == 'close_fail':
+        return ('close', 'fail')
+    if op['op'] in ('gen_create', 'gen_next'):
+        return (op['op'],)
     return ('op', op['api'], op['empty'])
 
 
-def check_step(g, state, letter, obs):
-    """Return (clause or None, next model state)."""
-    alts = [(op, to) for op, to in g[state] if letter_of(op) == letter]
+COVERED = set()
+
+
+def check_step(g, states, letter, obs):
+    """Return (clause or None, set of possible next model states; None when the letter is not enabled in the model)."""
+    alts = [(op, to) for st in sorted(states) for op, to in g[st] if letter_of(op) == letter]
+    if not alts:
+        return None, None
+    nxt = set()
     for op, to in alts:
-        out_ok = (op['out'] == obs['out']) or (op['out'] == 'raises' and obs['out'] != 'ok')
-        if out_ok and obs['avail'] == to and (op['wrote'] or not obs['wrote']) and (op['out'] == 'ok' or not obs['files_created'] or letter[0] != 'op'):
+        out_ok = (op['out'] == obs['out']) or (op['out'] == 'raises' and obs['out'] not in ('ok', 'stop'))
+        if out_ok and obs['avail'] == to[0] and (op['wrote'] or not obs['wrote']) and (op['out'] == 'ok' or not obs['files_created'] or letter[0] != 'op'):
             if letter == ('connect', 'ok') and obs['ret'] is not True:
                 continue
-            return None, to
+            nxt.add(to)
+            COVERED.add(json.dumps(op, sort_keys=True))
+    if nxt:
+        return None, nxt
     op, to = alts[0]
-    if obs['avail'] != to:
-        return 'C13.AvailableExactly', to
+    follow = set(t for _, t in alts)
+    if all(obs['avail'] != t[0] for t in follow):
+        return 'C13.AvailableExactly', follow
     if obs['wrote'] and not any(o['wrote'] for o, _ in alts):
-        return 'C13.NothingWritten', to
+        return 'C13.NothingWritten', follow
     if obs['files_created'] and letter[0] == 'op':
-        return 'C13.NoLocalFile', to
+        return 'C13.NoLocalFile', follow
     if letter[0] == 'op' and letter[2]:
-        return 'C13.EmptyPath', to
-    return 'C13.GuardFirst', to
+        return 'C13.EmptyPath', follow
+    return 'C13.GuardFirst', follow
 
 
-def walk(ctx, g, mode, alphabet, length, tmp, label):
+def enabled_prefix(g, seq):
+    """Length of the longest prefix of the letter sequence that the model can take at all."""
+    states = {(False, 'none')}
+    for i, letter in enumerate(seq):
+        states = set(to for st in states for op, to in g[st] if letter_of(op) == letter)
+        if not states:
+            return i
+    return len(seq)
+
+
+def walk(ctx, g, mode, alphabet, length, tmp, label, prefix=()):
     n = 0
     for seq in itertools.product(alphabet, repeat=length):
+        seq = tuple(prefix) + seq
+        if enabled_prefix(g, seq) < len(seq):
+            continue
         o = Obj(mode, tmp)
-        state = False
+        state = {(False, 'none')}
         try:
             for i, letter in enumerate(seq):
+                if not any(letter_of(op) == letter for st in state for op, _ in g[st]):
+                    break      # not enabled in any model state the observations leave possible (e.g. no generator was handed out)
                 obs = o.step(letter)
                 n += 1
                 clause, state = check_step(g, state, letter, obs)
@@ -170,9 +268,9 @@ def walk(ctx, g, mode, alphabet, length, tmp, label):
 
 def body(ctx):
     g = graph(ctx)
-    full = [('connect', 'ok')] + [('connect', k) for k in FAILS] + [('close',)] + [('op', a, e) for a in PATH_APIS for e in (False, True)] + [('op', a, False) for a in OTHER_APIS]
-    classes = [('connect', 'ok'), ('connect', 'silent'), ('connect', 'nokeys'), ('close',), ('op', 'shell', False), ('op', 'stat', False), ('op', 'list', True),
-               ('op', 'streaming_shell', False), ('op', 'pull', False)]
+    full = [('connect', 'ok')] + [('connect', k) for k in FAILS] + [('close',), ('close', 'fail'), ('gen_create',), ('gen_next',)] + [('op', a, e) for a in PATH_APIS for e in (False, True)] + [('op', a, False) for a in OTHER_APIS]
+    classes = [('connect', 'ok'), ('connect', 'silent'), ('connect', 'cancel'), ('close',), ('close', 'fail'), ('op', 'shell', False), ('op', 'list', True),
+               ('op', 'pull', False), ('gen_create',), ('gen_next',)]
     tmp = tempfile.mkdtemp(prefix='c13-', dir=tlc.WORK if os.path.isdir(tlc.WORK) else None)
     try:
         total = 0
@@ -183,9 +281,17 @@ def body(ctx):
             total += walk(ctx, g, mode, classes, 4 if ctx.quick else 6, tmp, 'operation classes')
             if ctx.violations:
                 break
+            for pre in ([('connect', 'ok'), ('gen_create',), ('gen_next',)], [('connect', 'ok'), ('gen_create',), ('gen_next',), ('gen_next',)]):
+                total += walk(ctx, g, mode, classes, 3 if ctx.quick else 4, tmp, 'a generator in progress, then operation classes', prefix=pre)
+            if ctx.violations:
+                break
     finally:
         shutil.rmtree(tmp, ignore_errors=True)
     ctx.count(evaluations=total, distinct=len(full) ** (3 if ctx.quick else 4) + len(classes) ** (4 if ctx.quick else 6))
+    alledges = set(json.dumps(op, sort_keys=True) for st in g for op, _ in g[st])
+    ctx.extra['model_edge_labels'] = len(alledges)
+    ctx.extra['model_edge_labels_taken_by_the_implementation'] = len(COVERED & alledges)
+    ctx.extra['model_edge_labels_never_taken'] = sorted(alledges - COVERED)   # alternatives the property leaves open and the library does not use
     ctx.cov['exhaustive'] = True
     ctx.cov['traces_validated_against_impl'] = 2 * (len(full) ** (3 if ctx.quick else 4) + len(classes) ** (4 if ctx.quick else 6))
     ctx.sample(dict(kind='sequence', letters=[['connect', 'silent'], ['op', 'pull', False], ['connect', 'ok'], ['close'], ['op', 'stat', False]]))
